@@ -30,3 +30,34 @@ def lemma_obligations():
                     "status": "discharged" if r == z3.unsat else ("refuted" if r == z3.sat else "unknown"),
                     "backend": "z3", "time_s": round(time.time() - t0, 4)})
     return out
+
+
+def run_native(code, timeout=300):
+    """Run a snippet against the real code under the repository's interpreter.
+    Returns (exit_code, output)."""
+    import os
+    import subprocess
+    repo = os.environ.get("VERIF_REPO", "/repo")
+    py = os.environ.get("VERIF_NATIVE_PY", "/venv/bin/python")
+    env = dict(os.environ)
+    root = os.path.dirname(os.path.dirname(os.path.abspath(__file__)))
+    env["PYTHONPATH"] = os.path.join(repo, "src") + os.pathsep + root
+    p = subprocess.run([py, "-c", code], capture_output=True, text=True, timeout=timeout, env=env)
+    return p.returncode, (p.stdout + p.stderr)[-3000:]
+
+
+def gtypes_lemmas():
+    import time
+    import z3
+    from theories import gtypes
+    out = []
+    for name, f in gtypes.lemmas():
+        s = z3.Solver()
+        s.set("timeout", 20000)
+        s.add(z3.Not(f))
+        t0 = time.time()
+        r = s.check()
+        out.append({"func": "theories.gtypes", "kind": "LEMMA", "text": name,
+                    "status": "discharged" if r == z3.unsat else ("refuted" if r == z3.sat else "unknown"),
+                    "backend": "z3", "time_s": round(time.time() - t0, 4)})
+    return out
